@@ -14,6 +14,16 @@ CLAIMED = {
     note=COMMON_NOTE + "unicode.ToLower is modelled exactly on U+0000-U+00FF and as identity on caseless planes (generator confined to that range, measured); strings/gzip/base64 library behaviour assumed. No axioms (Print Assumptions: closed).",
     technique="Coq proof over an executable cascade model + regenerated constants + differential correspondence",
     design="5/C20"),
+ "C12": dict(
+    text="45 Coq theorems over the cache operations of the session model (all states satisfying the stated invariants, all tie-break lists, all configurations, fault-free): after every cache write |cache| <= N for N>0 (unconditional for an uncached ID and a loading Get; for a cached ID under the tie side condition, otherwise N+1 with a proved witness), N=0 keeps none, N<0 never evicts for size, victims are least recently used, the sweep drops exactly the idle entries, every entry leaving through compact/PurgeSessions has its full record incl. lastAccess in the store (codec-read logical contents invariant); lifted to arbitrary operation sequences. Tied to cache.go/session.go by differential execution of Model/Sess.v against the real package under a virtual clock on generated histories (fault-free, faulted, crashed), comparing persistence calls and cache contents after every step, plus an LRU/size/flush oracle on the real traces.",
+    note=COMMON_NOTE + "Go map iteration order enters the model as a tie-break list taken from the observed run; sync.Mutex/RWMutex, net/http, encoding/gob|json, time assumed. Print Assumptions: closed.",
+    technique="Coq invariants over an executable cache model + differential correspondence under synctest + trace oracle",
+    design="5/C12"),
+ "C09": dict(
+    text="Coq: the write-through invariant WT (cached object and stored record agree on created/reference/user-ID/data after the codec) is preserved by every step of every fault-free, crash-free history without GetAndDelete, for all configurations and tie-break orders (C09_wt); every acknowledged Start/Set/Delete/LogIn/LogOut/RegenerateID/LogOut(user)/RefreshUser re-establishes it with the change in the stored record (C09_ack_*); cache loss preserves those fields of every ID (C09_loss). GetAndDelete is refuted in the model (C09_getdel_refuted, defect D6, recorded as known finding). Tie: model vs real package on generated histories comparing memory, store and persistence calls after every step; oracle compares memory with store after every step of the real traces.",
+    note=COMMON_NOTE + "Known finding D6 (GetAndDelete never saves) is reported as KNOWN-FINDING, not repaired (no error result to report a failed save through). Print Assumptions: closed.",
+    technique="Coq invariant by induction over histories + differential correspondence + trace oracle",
+    design="5/C09"),
 }
 
 def main():
